@@ -411,6 +411,8 @@ struct Thread {
     op: u8,
     op_start_steps: u64,
     in_op: bool,
+    /// API calls nested inside the current one (user code — a destructor — that calls back in).
+    op_depth: u32,
     ops_done: u64,
     tls: Vec<TlsEntry>,
     tls_done: bool,
@@ -867,6 +869,7 @@ impl Runtime {
             op: 0,
             op_start_steps: 0,
             in_op: false,
+            op_depth: 0,
             ops_done: 0,
             tls: Vec::new(),
             tls_done: false,
@@ -1489,6 +1492,8 @@ pub fn op_begin(op: u8) {
         th.op = op;
         th.op_start_steps = th.steps;
         rt.in_api += 1;
+    } else {
+        th.op_depth += 1;
     }
 }
 
@@ -1498,6 +1503,11 @@ pub fn op_end() -> u64 {
     let cur = rt.current;
     let th = &mut rt.threads[cur];
     if !th.in_op {
+        return 0;
+    }
+    if th.op_depth > 0 {
+        // the end of a nested call: the outer one is still in progress
+        th.op_depth -= 1;
         return 0;
     }
     th.in_op = false;
